@@ -214,7 +214,7 @@ pub fn generate(rng: &mut Rng, tier: &str, _idx: u64) -> Scenario {
     let mut hi = i32::MIN;
     let mut snaps = 0u32;
     // weights: insert, contains, first_after, count, iter, year, clone, rebuild, snapshot, cmpsnap, roundtrip, concat
-    let weights: [u32; 12] = if huge { [30, 10, 14, 2, 1, 4, 1, 0, 1, 1, 2, 1] } else { [30, 10, 16, 3, 4, 6, 2, 3, 4, 3, 12, 7] };
+    let weights: [u32; 12] = if huge { [30, 10, 14, 2, 1, 4, 1, 0, 1, 1, 2, 1] } else { [30, 10, 16, 3, 4, 6, 2, 3, 4, 6, 12, 7] };
     for _ in 0..cfg.len {
         let years = if hi >= lo { hi - lo + 1 } else { 0 };
         let bytes = 12 + 48 * years as u64;
@@ -246,7 +246,13 @@ pub fn generate(rng: &mut Rng, tier: &str, _idx: u64) -> Scenario {
                 snaps += 1;
                 Op::Snapshot
             }
-            9 => Op::CmpSnap(rng.below(snaps.max(1) as u64) as u32),
+            9 => {
+                if rng.chance(1, 2) {
+                    Op::CmpSnap(rng.below(snaps.max(1) as u64) as u32)
+                } else {
+                    Op::SnapQuery(rng.below(snaps.max(1) as u64) as u32, gen_query(rng, &cfg, &known))
+                }
+            }
             10 => Op::RoundTrip { w: gen_plan(rng, &cfg, est_calls(years), bytes, false), r: gen_plan(rng, &cfg, est_calls(years), bytes, true), tail: rng.below(9) as u8 },
             _ => {
                 let n = rng.range(2, if thorough { 16 } else { 6 }) as usize;
